@@ -356,9 +356,11 @@ func (a *Attempt) Sent() bool { return atomic.LoadUint32(&a.sent) == 1 }
 func (a *Attempt) Live() bool { return a.s != nil && atomic.LoadUint32(&a.dead) == 0 }
 
 // Respond delivers a complete upstream response the way stream.client does: destroy the client stream, then
-// receiver.OnReceive(ctx, headers, data, trailers). body/trailers nil = absent. No-op for one-way or refused attempts.
+// receiver.OnReceive(ctx, headers, data, trailers). body/trailers nil = absent. No-op for one-way or refused attempts
+// and for a stream that was already answered or reset: the real codecs unregister such a stream from its connection
+// (xprotocol xStream.ResetStream / handleResponse), a late frame for it is dropped.
 func (a *Attempt) Respond(code int, headers map[string]string, body []byte, trailers map[string]string) {
-	if a.s == nil || a.receiver == nil {
+	if a.s == nil || a.receiver == nil || !a.Live() {
 		return
 	}
 	a.s.DestroyStream()
